@@ -225,9 +225,12 @@ func (b *Body) applyContract(v ssa.Value, con *FnContract, key string, sig *type
 		}
 		// a violated callee precondition invalidates every proof of the caller
 		// that uses the callee's postcondition
-		tags := unionTags(r.Tags, ft.allTags())
+		// an untagged precondition counts for everything the caller claims (a
+		// violated precondition invalidates every use of the postcondition); a
+		// precondition with explicit tags is scoped to them by its author
+		tags := r.Tags
 		if len(r.Tags) == 0 {
-			tags = unionTags(tags, ft.safetyTags())
+			tags = unionTags(unionTags(r.Tags, ft.allTags()), ft.safetyTags())
 		}
 		name := "pre:" + shortKey(key)
 		if r.Name != "" {
@@ -257,6 +260,25 @@ func (b *Body) applyContract(v ssa.Value, con *FnContract, key string, sig *type
 	mods := ft.e.modSet(key, con)
 	names := formalNames(con, sig, c.IsInvoke())
 	for _, m := range mods {
+		if strings.HasPrefix(m, "map(") && strings.HasSuffix(m, ")") {
+			// the contents of one map object, designated by an expression over the formals
+			ex, err := ParseExprM(m[4:len(m)-1], ft.e.contracts.Macros)
+			if err != nil {
+				ft.shapeFail(&Clause{Kind: "modifies", Src: m, File: con.File, Line: con.Line}, err)
+				continue
+			}
+			cv, err := env.Eval(ex)
+			if err != nil || cv.Type == nil {
+				ft.shapeFail(&Clause{Kind: "modifies", Src: m, File: con.File, Line: con.Line}, fmt.Errorf("at call to %s: %v", key, err))
+				continue
+			}
+			if _, ok := types.Unalias(cv.Type).Underlying().(*types.Map); !ok {
+				ft.shapeFail(&Clause{Kind: "modifies", Src: m, File: con.File, Line: con.Line}, fmt.Errorf("%s is not a map", m))
+				continue
+			}
+			b.havocReachable(&Val{T: cv.T, Type: cv.Type}, nil, blk, st, 1)
+			continue
+		}
 		if strings.HasPrefix(m, "*") || strings.HasPrefix(m, "[]") {
 			// the cell a pointer argument designates / the contents of a slice argument
 			pn := strings.TrimPrefix(strings.TrimPrefix(m, "*"), "[]")
@@ -807,9 +829,27 @@ func (b *Body) appendBuiltin(v ssa.Value, c *ssa.CallCommon, blk *ssa.BasicBlock
 	ft.setRegion(st, reg, Sto(h, ref, na))
 	// registered prefix sums are additive over concatenation (A-FOLD)
 	for _, sf := range ft.e.prelude.AppendSum[es] {
-		ft.fact(Eq(A(sf, na, A("+", sl0, el)), A("+", A(sf, Sel(h, s.T), sl0), A(sf, Sel(h, e.T), el))))
 		ft.usedSpec[sf] = true
 		ft.trusted["A-FOLD: "+sf+" is additive over append (sum of a concatenation)"] = true
+		spec := ft.e.prelude.Fns[sf]
+		if spec == nil || len(spec.Args) <= 2 {
+			ft.fact(Eq(A(sf, na, A("+", sl0, el)), A("+", A(sf, Sel(h, s.T), sl0), A(sf, Sel(h, e.T), el))))
+			continue
+		}
+		// sums with parameters (f(seq, x1..xk, n)): additive for every choice of the parameters
+		var binds [][2]string
+		var xs []*T
+		for _, so := range spec.Args[1 : len(spec.Args)-1] {
+			v := fmt.Sprintf("x!%d", ft.count("qv"))
+			binds = append(binds, [2]string{v, so})
+			xs = append(xs, L(v))
+		}
+		nv := fmt.Sprintf("n!%d", ft.count("qv"))
+		binds = append(binds, [2]string{nv, "Int"})
+		app := func(seq *T, n *T) *T {
+			return A(sf, append(append([]*T{seq}, xs...), n)...)
+		}
+		ft.fact(Forall(binds, Imp(Eq(L(nv), A("+", sl0, el)), Eq(app(na, L(nv)), A("+", app(Sel(h, s.T), sl0), app(Sel(h, e.T), el)))), []*T{app(na, L(nv))}))
 	}
 }
 
